@@ -54,6 +54,13 @@ def R1_decision_table(ctx):
                 return False
             holds = (t == "eq") == (c[0] == "Eq")
             return holds == cond_truth(label)
+        # the same after canonicalisation: default(popped == target, false)
+        if d[0] == "default" and d[2] == ("const", "bool", False):
+            cc = as_cmp(d[1])
+            if cc and cc[0] == "Eq" and {cc[1], cc[2]} == {popped_v, tgt}:
+                if q != "Some":
+                    return False
+                return (t == "eq") == cond_truth(label)
         # target.map_or(false, |t| popped == t) / target.is_some_and(|t| popped == t)
         if d[0] == "call" and re.search(r"Option::<T>::(map_or|is_some_and)$", d[1]) and d[2] and d[2][0] == tgt and d[2][-1][0] == "closure" and d[2][-1][1] in ctx.F.bodies:
             dflt_ok = d[1].endswith("is_some_and") or (len(d[2]) == 3 and d[2][1] == ("const", "bool", False))
